@@ -21,7 +21,8 @@ def families(tier):
     # rule of the FMG interpolation uses four distinct nodes in both directions
     if tier == "thorough":
         return [("{3,4,5}", "{2}", "{1,2}", 0), ("{3,4}", "{4}", "{1,2}", 0), ("{3}", "{2,4}", "{1,2,3}", 0), ("{5}", "{4,6}", "{1,2}", 2)]
-    return [("{3,4}", "{2}", "{1,2}", 0), ("{3}", "{4}", "{1,2}", 0), ("{4}", "{4}", "{1,2}", 3)]
+    # 6 coarse angles: the smallest antipodally paired circle on which the coarse cells left and right of a node can differ
+    return [("{3,4}", "{2}", "{1,2}", 0), ("{3}", "{4}", "{1,2}", 0), ("{4}", "{4}", "{1,2}", 3), ("{4}", "{6}", "{1,2}", 2)]
 
 
 def model_and_tables(rep, tier, inv, label):
